@@ -304,13 +304,16 @@ func newSessions() *sessions { return &sessions{data: make(map[*Session]struct{}
 
 func (s *sessions) add(session *Session) {
 	s.sessionMu.Lock()
-	if s.data != nil {
+	closed := s.data == nil
+	if !closed {
 		s.data[session] = struct{}{}
-	} else {
+	}
+	s.sessionMu.Unlock()
+	if closed {
+		// Close reports the shutdown to the listener, which takes sessionMu again: close outside the lock
 		session.logger.warnf("listener is closed, session %s will not be add", session.name)
 		session.Close()
 	}
-	s.sessionMu.Unlock()
 }
 
 func (s *sessions) removeShutdownSession() {
